@@ -557,10 +557,21 @@ func (c *Ctx) havocWrites(fr *Frame, st *State, ws *writeSet, tag string) {
 func (c *Ctx) havocComp(st *State, leaf, srt string, refs map[string]bool, tag string, ws *writeSet, wkey string) {
 	h := c.H(st, leaf, srt)
 	whole := false
+	freshInLoop := false
 	var rl []string
 	for r := range refs {
-		if r == "" || c.bornAfter(r, st) {
+		if r == "" {
 			whole = true
+			continue
+		}
+		if c.bornAfter(r, st) {
+			// objects allocated inside the loop lie above the allocation frontier at loop entry
+			if c.allocRefs[r] {
+				freshInLoop = true
+			} else {
+				whole = true
+			}
+			continue
 		}
 		rl = append(rl, r)
 	}
@@ -589,7 +600,14 @@ func (c *Ctx) havocComp(st *State, leaf, srt string, refs map[string]bool, tag s
 			}
 			t = app("store", t, r, nv)
 		}
-		c.assumeAlways(eq(name, t))
+		if freshInLoop {
+			// only objects allocated since loop entry may differ otherwise
+			tn := c.fresh("hvbase", srt)
+			c.assumeAlways(eq(tn, t))
+			c.assumeAlways(fmt.Sprintf("(forall ((r Int)) (! (=> (< r %s) (= (select %s r) (select %s r))) :pattern ((select %s r))))", c.next(st), name, tn, name))
+		} else {
+			c.assumeAlways(eq(name, t))
+		}
 	}
 	if leaf == "$next" {
 		c.assumeAlways(app(">=", name, h))
@@ -1075,7 +1093,11 @@ func (c *Ctx) execSlice(fr *Frame, st *State, x *ssa.Slice) {
 		mx := get(x.Max, n)
 		c.safety(fr, exprText(fr, x)+"#bounds", x, and(app("<=", "0", lo), app("<=", lo, hi), app("<=", hi, mx), app("<=", mx, n)))
 		t := app("mkSlice", p.Ref, lo, app("-", hi, lo), app("-", mx, lo))
-		c.set(fr, x, &Val{T: x.Type(), Term: c.define("sl", "Slice", t)})
+		nm := c.define("sl", "Slice", t)
+		if c.allocRefs[p.Ref] {
+			c.allocRefs[app("lref", nm)] = true
+		}
+		c.set(fr, x, &Val{T: x.Type(), Term: nm})
 	default:
 		c.unsupported("Slice on %s", shortTypeName(x.X.Type()))
 		c.set(fr, x, c.freshVal(x.Type(), "sl"))
